@@ -17,7 +17,8 @@ Names are handled as lists of Unicode code points (`codes`), parsed by `parseEnt
 next `'_'`).
 
 1. `catalogue_size`, `entries_length`
-2. `labels_match_names`
+2. `labels_match_names` (with `parseEntry_sound`: the parser only returns genuine decompositions
+   `name = A ++ "_to_" ++ B ++ suffix`)
 3. `neg_is_negation`, `neg_involutive`, `neg_involutive_pyid0`, `reverse_pairs`, `reverse_pairs_entries`,
    `reverse_pair_count`, `every_reverse_is_present_except`
 4. `add_keeps_labels_and_rates`, `add_params`
@@ -79,6 +80,40 @@ theorem parseEntry_t {c : String × Transformation} {p : Entry} (h : parseEntry 
 theorem mem_entries {c : String × Transformation} {p : Entry}
     (hc : c ∈ catalogue_Transformation) (h : parseEntry c = some p) : p ∈ entries :=
   List.mem_filterMap.mpr ⟨c, hc, h⟩
+
+theorem splitTo_sound : ∀ (cs acc : List Nat) {a rest : List Nat}, splitTo acc cs = some (a, rest) →
+    acc.reverse ++ cs = a ++ [95, 116, 111, 95] ++ rest := by
+  intro cs acc
+  fun_induction splitTo acc cs with
+  | case1 acc rest' => intro a rest h; cases h; simp
+  | case2 acc c rest' hne ih => intro a rest h; simpa using ih h
+  | case3 acc => intro a rest h; cases h
+
+/-- the parser only ever returns a decomposition `name = A ++ "_to_" ++ B ++ suffix` with no `'_'` in
+`B` and the suffix empty or starting with `'_'` -/
+theorem parseEntry_sound {c : String × Transformation} {p : Entry} (h : parseEntry c = some p) :
+    codes c.1 = p.a ++ [95, 116, 111, 95] ++ p.b ++ p.suffix ∧ 95 ∉ p.b ∧
+      (p.suffix = [] ∨ ∃ s, p.suffix = 95 :: s) := by
+  unfold parseEntry parseCodes at h
+  split at h
+  · cases h
+  · rename_i a rest hs
+    cases h
+    have h0 := splitTo_sound _ _ hs
+    simp only [List.reverse_nil, List.nil_append] at h0
+    refine ⟨?_, ?_, ?_⟩
+    · rw [h0, List.append_assoc _ (List.takeWhile _ rest), List.takeWhile_append_dropWhile]
+    · intro hm
+      have hall := List.all_eq_true.mp (List.all_takeWhile (l := rest) (p := fun x => x != 95)) _ hm
+      simp at hall
+    · cases hd : List.dropWhile (fun x => x != 95) rest with
+      | nil => exact Or.inl rfl
+      | cons x s =>
+        right
+        have := List.head?_dropWhile_not (fun x => x != 95) rest
+        simp only [hd, List.head?_cons] at this
+        have hx : x = 95 := by simpa using this
+        exact ⟨s, by rw [hx]⟩
 
 example : (parseEntry ("agd66_to_gda94_vicnsw", agd66_to_gda94_vicnsw)).map
     (fun p => (p.a, p.b, p.suffix)) = some (codes "agd66", codes "gda94", codes "_vicnsw") := by
